@@ -209,7 +209,7 @@ theorem C07.variables_stay_in_process (d : Design) (h : accept true d = true) (r
   obtain ⟨hf, hc⟩ := h
   have hok := (C07.checkUsage_ok_iff d).1 hc
   simp only [frontend, Bool.and_eq_true, List.all_eq_true] at hf
-  obtain ⟨hfc, hfi⟩ := hf
+  obtain ⟨⟨hfc, hfi⟩, _⟩ := hf
   have hproc : ∀ u ∈ emit d, r ∈ u.refs → ∃ i, u.owner = .ctx i := by
     intro u hu hru
     simp only [emit, List.mem_append] at hu
@@ -218,7 +218,7 @@ theorem C07.variables_stay_in_process (d : Design) (h : accept true d = true) (r
       · exfalso
         have := hfc c hcm
         simp only [ctxFrontend, Bool.and_eq_true, List.all_eq_true] at this
-        obtain ⟨⟨⟨⟨⟨_, hal⟩, _⟩, _⟩, _⟩, _⟩ := this
+        obtain ⟨⟨⟨⟨⟨⟨_, hal⟩, _⟩, _⟩, _⟩, _⟩, _⟩ := this
         rw [hk.2, List.mem_map] at hru
         obtain ⟨a, ha, hroot⟩ := hru
         have := hal a ha
@@ -250,7 +250,7 @@ theorem C07.variables_stay_in_process (d : Design) (h : accept true d = true) (r
   · intro c hcm hkind a ha hroot
     have := hfc c hcm
     simp only [ctxFrontend, Bool.and_eq_true, List.all_eq_true, Bool.or_eq_true] at this
-    obtain ⟨⟨⟨⟨⟨hvc, _⟩, _⟩, _⟩, _⟩, _⟩ := this
+    obtain ⟨⟨⟨⟨⟨⟨hvc, _⟩, _⟩, _⟩, _⟩, _⟩, _⟩ := this
     rcases hvc with hvc | hvc
     · simp [hkind] at hvc
     · have := hvc a ha
@@ -306,3 +306,10 @@ example : checkUsage true ⟨[.signal, .signal, .portIn], [], [⟨[2], [0, 1]⟩
 example : checkUsage true ⟨[.signal, .portOut], [⟨.seq, [⟨0, .write, false⟩]⟩, ⟨.seq, [⟨0, .write, false⟩, ⟨1, .write, false⟩]⟩], []⟩ = false := by decide
 example : checkUsage true ⟨[.portIn, .portOut], [⟨.conc, [⟨0, .write, false⟩, ⟨1, .write, false⟩]⟩], []⟩ = false := by decide
 example : accept true ⟨[.variable, .portOut], [⟨.seq, [⟨0, .write, true⟩, ⟨1, .write, true⟩]⟩], []⟩ = false := by decide
+
+-- explicit Temporary defined by inline code: in the always block it is rejected by the patched tree (it would be declared
+-- as a process variable but assigned outside the process); as port actual it cannot also be used in a process body
+example : accept true ⟨[.temporary, .portIn], [⟨.seq, [⟨1, .read, true⟩, ⟨0, .write, true⟩]⟩], []⟩ = false := by decide
+example : accept false ⟨[.temporary, .portIn], [⟨.seq, [⟨1, .read, true⟩, ⟨0, .write, true⟩]⟩], []⟩ = true := by decide
+example : accept true ⟨[.temporary, .portIn, .portOut], [⟨.seq, [⟨1, .read, false⟩, ⟨0, .write, false⟩]⟩], [⟨[0], [2]⟩]⟩ = false := by decide
+example : accept true ⟨[.temporary, .portIn, .portOut], [⟨.seq, [⟨1, .read, false⟩, ⟨0, .write, false⟩, ⟨0, .read, false⟩, ⟨2, .write, false⟩]⟩], []⟩ = true := by decide
